@@ -125,7 +125,7 @@ pub fn random_during(rng: &mut StdRng) -> Vec<Gui> {
     let mut v = Vec::new();
     if rng.gen_bool(0.35) {
         for _ in 0..rng.gen_range(1..=3) {
-            v.push(match rng.gen_range(0..5) { 0 | 1 => Gui::NewGame, 2 => Gui::Debug(rng.gen_bool(0.5)), 3 => Gui::IsReady, _ => Gui::Uci });
+            v.push(match rng.gen_range(0..11) { 0..=3 => Gui::NewGame, 4 | 5 => Gui::Debug(rng.gen_bool(0.5)), 6 | 7 => Gui::IsReady, 8 | 9 => Gui::Uci, _ => Gui::Register(rng.gen_bool(0.5)) });
         }
     }
     v
